@@ -161,7 +161,13 @@ class TriSim:
         hid.os = self.fos if hub is None else hub
         self.d = hid.tridonic("/dev/null-dali", dev_inst_map=dev_inst_map)
         if seq0 is not None:
-            self.d._cmd_seq = iter(self.d._seqnum(seq0))
+            # start the driver's sequence numbers at a chosen value where it keeps a counter of that shape; a driver
+            # that chooses its numbers differently keeps its own choice (the harnesses read the number from what the
+            # driver writes) - whether that choice is sound is for the scenarios to find out, not for this line
+            try:
+                self.d._cmd_seq = iter(self.d._seqnum(seq0))
+            except AttributeError:
+                pass
         self.log = []          # (virtual time, raw packet) for everything delivered after connect
 
     async def start(self):
